@@ -117,6 +117,7 @@ type lexer struct {
 	mode   mode
 	last   token // The last emitted token
 	parens int   // Number of open parenthesis
+	err    error // The error met while reading the input, if any
 }
 
 // nextToken returns the next token emitted by the lexer.
@@ -131,6 +132,11 @@ func (l *lexer) nextToken() token {
 
 // tokenize kicks things off.
 func (l *lexer) tokenize() {
+	if l.err != nil {
+		// the source could not be read completely: what was read is not the template
+		l.errorf("unable to read template: %s", l.err)
+		return
+	}
 	for l.state = lexData; l.state != nil; {
 		l.state = l.state(l)
 	}
@@ -139,8 +145,8 @@ func (l *lexer) tokenize() {
 // newLexer creates a lexer, ready to begin tokenizing.
 func newLexer(input io.Reader) *lexer {
 	// TODO: lexer should use the reader.
-	i, _ := ioutil.ReadAll(input)
-	return &lexer{0, 0, 1, 0, string(i), make(chan token), nil, modeNormal, token{}, 0}
+	i, err := ioutil.ReadAll(input)
+	return &lexer{0, 0, 1, 0, string(i), make(chan token), nil, modeNormal, token{}, 0, err}
 }
 
 func (l *lexer) next() (val string) {
